@@ -304,6 +304,51 @@ func init() {
 	})
 }
 
+func init() {
+	register(&PropDef{ID: "C08", Rule: "1-3 processes (fast exit, slow reaction to the stop signal, restarting, pending on a dependency) and 2-4 concurrent client tasks each issuing 3-8 seeded start/stop/restart requests, including unknown names and duplicates at the same instant; instance-overlap oracle at every launch, outcome-vs-activity oracle per request; non-trivial = at least two requests overlapped or landed at the same fake instant; distinct = distinct trace hash",
+		Gen: func(seed uint64, idx int, tier string) *Scenario {
+			sc, r := baseScenario("C08", seed)
+			k := lifecycleKnobs()
+			k.MinProcs, k.MaxProcs = 1, 3
+			k.RestartP = 500
+			k.EdgeP = 300
+			k.SlowDeathP = 500
+			k.StartFailP = 30
+			k.DisabledP = 100
+			k.MaxLifeMs = 6000
+			k.Conds = []string{"process_completed", "process_started", "process_log_ready", "process_completed_successfully"}
+			GenCore(r, k, sc)
+			sc.Arm = "quiesce"
+			sc.RunForMs = 25000
+			nc := r.Range(2, 4)
+			for c := 0; c < nc; c++ {
+				var ops []Op
+				for i := 0; i < r.Range(3, 8); i++ {
+					name := sc.Project.Procs[r.Intn(len(sc.Project.Procs))].Name
+					if r.P(80) {
+						name = Pick(r, "nosuch", "p9", "")
+					}
+					ops = append(ops, Op{AtMs: whenMs(r, 14000), Op: Pick(r, "start", "stop", "restart", "start", "stop"), Arg: name})
+				}
+				sortOps(ops)
+				sc.Clients = append(sc.Clients, Client{Name: fmt.Sprintf("c%d", c), Ops: ops})
+			}
+			return sc
+		},
+		Check: func(sc *Scenario, res *RunResult, t *Truth) []Violation { return checkC08(sc, t) },
+		NonTrivial: func(sc *Scenario, res *RunResult, t *Truth) bool {
+			for i, a := range t.Calls {
+				for _, b := range t.Calls[i+1:] {
+					if a.Client != b.Client && (b.CallSeq < a.RetSeq || a.CallT == b.CallT) {
+						return true
+					}
+				}
+			}
+			return false
+		},
+	})
+}
+
 func sortOps(ops []Op) {
 	for i := 1; i < len(ops); i++ {
 		for j := i; j > 0 && ops[j].AtMs < ops[j-1].AtMs; j-- {
